@@ -160,6 +160,10 @@ def main(argv=None):
             run.inconclusive_because("conclude crashed: %s: %s" % (type(e).__name__, e))
     if run.evaluations == 0:
         run.inconclusive_because("no case was evaluated")
+    elif not run.samples and not run.nviol:
+        run.inconclusive_because("no sample case was recorded")
+    elif len(run.sigs) < 2 and not run.nviol:
+        run.inconclusive_because("fewer than two distinct non-trivial cases were observed")
     return core.finish(run, mod)
 
 
